@@ -321,6 +321,94 @@ var Progs = []Prog{
 		mu.Unlock()
 		return <-order + <-order
 	}, []string{"ab"}},
+	{"sync-map", func() string {
+		var m sync.Map
+		var wg sync.WaitGroup
+		for i := 0; i < 2; i++ {
+			i := i
+			wg.Add(1)
+			go func() {
+				defer wg.Done()
+				if _, loaded := m.LoadOrStore("k", i); !loaded {
+					m.Store(fmt.Sprint("w", i), true)
+				}
+			}()
+		}
+		wg.Wait()
+		n := 0
+		m.Range(func(k, v any) bool { n++; return true })
+		v, _ := m.Load("k")
+		_, w0 := m.Load("w0")
+		_, w1 := m.Load("w1")
+		m.Delete("k")
+		_, still := m.Load("k")
+		return fmt.Sprint(n, v, w0, w1, still)
+	}, []string{"2 0 true false false", "2 1 false true false"}},
+	{"atomic-pointer-cas", func() string {
+		type box struct{ v int }
+		var p atomic.Pointer[box]
+		first := &box{0}
+		p.Store(first)
+		var wins atomic.Int32
+		var wg sync.WaitGroup
+		for i := 1; i <= 2; i++ {
+			i := i
+			wg.Add(1)
+			go func() {
+				defer wg.Done()
+				if p.CompareAndSwap(first, &box{i}) {
+					wins.Add(1)
+				}
+			}()
+		}
+		wg.Wait()
+		var v atomic.Value
+		v.Store("x")
+		old := v.Swap("y")
+		return fmt.Sprintf("%v %v %v %v", wins.Load(), p.Load().v, old, v.Load())
+	}, []string{"1 1 x y", "1 2 x y"}},
+	{"ctx-afterfunc-cause", func() string {
+		ctx, cancel := context.WithCancelCause(context.Background())
+		ran := make(chan string, 1)
+		stop := context.AfterFunc(ctx, func() { ran <- "ran" })
+		cancel(fmt.Errorf("why"))
+		r := <-ran
+		stopped := stop()
+		ctx2, cancel2 := context.WithCancel(context.Background())
+		stop2 := context.AfterFunc(ctx2, func() { ran <- "ran2" })
+		s2 := stop2()
+		cancel2()
+		wc := context.WithoutCancel(ctx)
+		return fmt.Sprintf("%v %v %v %v %v %v %v", r, stopped, context.Cause(ctx), ctx.Err(), s2, len(ran), wc.Err())
+	}, []string{"ran false why context canceled true 0 <nil>"}},
+	{"once-value-pool", func() string {
+		calls := 0
+		f := sync.OnceValue(func() int { calls++; return 7 })
+		var wg sync.WaitGroup
+		sum := atomic.Int64{}
+		for i := 0; i < 2; i++ {
+			wg.Add(1)
+			go func() { defer wg.Done(); sum.Add(int64(f())) }()
+		}
+		wg.Wait()
+		pl := sync.Pool{New: func() any { return new(int) }}
+		x := pl.Get().(*int)
+		pl.Put(x)
+		return fmt.Sprint(calls, sum.Load(), *x)
+	}, []string{"1 14 0"}},
+	{"ticker-stop", func() string {
+		tk := time.NewTicker(2 * time.Millisecond)
+		n := 0
+		for range tk.C {
+			n++
+			if n == 3 {
+				tk.Stop()
+				break
+			}
+		}
+		tm := time.AfterFunc(time.Hour, func() {})
+		return fmt.Sprint(n, tm.Stop())
+	}, []string{"3 true"}},
 }
 
 // Names lists the program names.
